@@ -294,4 +294,81 @@ theorem gemCharAt_regenerated (hx : Gen.GemCode.gemCharAt_extracted = true) (s :
          | some e => charAt_tail rs e idx (hv.2 c e rfl hg) [hg])
 
 
+/-- `GraphemeIndexes()` of a String whose cached ends are `e`: for every cluster the pair `[start, end)` -/
+def gemSpans (prev : Nat) : List Nat → List (Option (List Int))
+  | [] => []
+  | x :: xs => some [(prev : Int), (x : Int)] :: gemSpans x xs
+
+/-- the loop of `GraphemeIndexes`, restated -/
+def spanStep (k : Nat) (x : Int) (s : List (Option (List Int)) × Int) : List (Option (List Int)) × Int :=
+  (s.1.set k (some [s.2, x]), x)
+
+theorem spanStep_fold : ∀ (xs : List Nat) (done : List (Option (List Int))) (prev : Nat),
+    (rangeFold spanStep done.length (xs.map Int.ofNat) (done ++ List.replicate xs.length none, (prev : Int))).1 =
+      done ++ gemSpans prev xs := by
+  intro xs
+  induction xs with
+  | nil => intro done prev; simp [rangeFold, gemSpans]
+  | cons x xs ih =>
+    intro done prev
+    have := ih (done ++ [some [(prev : Int), (x : Int)]]) x
+    simp only [List.length_append, List.length_cons, List.length_nil, Nat.zero_add, List.append_assoc, List.cons_append, List.nil_append] at this
+    simp only [List.map_cons, rangeFold, spanStep, List.length_cons, List.replicate_succ, gemSpans]
+    rw [List.set_append_right _ _ (Nat.le_refl _)]
+    simp only [Nat.sub_self, List.set_cons_zero]
+    simp only [Int.ofNat_eq_natCast]
+    rw [this]
+
+theorem gemGraphemeIndexes_regenerated (hx : Gen.GemCode.gemGraphemeIndexes_extracted = true) (s : GStr) (h : Heap)
+    (hv : CellAlloc h s) : Gen.GemCode.gemGraphemeIndexes s h = okM (H.graphemeIndexes s) (gemSpans 0) h := by
+  first
+    | exact absurd hx (by decide)
+    | (unfold Gen.GemCode.gemGraphemeIndexes
+       simp only [gemInitialized_regenerated (by decide), gemSplit_regenerated (by decide)]
+       unfold H.graphemeIndexes H.initialized H.ensure
+       have hloop : ∀ (e : List Nat) (h' : Heap) body,
+           (∀ (k : Nat) (x : Int) (s : List (Option (List Int)) × Int), (e.map Int.ofNat)[k]? = some x → s.1.length = e.length →
+             body (k : Int) x s h' = (h', .ok (spanStep k x s), [])) →
+           forRangeM (e.map Int.ofNat) body (List.replicate e.length none, 0) h' =
+             (h', .ok (gemSpans 0 e, (rangeFold spanStep 0 (e.map Int.ofNat) (List.replicate e.length none, 0)).2), []) := by
+         intro e h' body hb
+         rw [forRangeM_inv body spanStep (fun _ s => s.1.length = e.length) (e.map Int.ofNat) h'
+           (fun k x s hk hs => ⟨hb k x s hk hs, by simp [spanStep, hs]⟩) _ (by simp)]
+         have := spanStep_fold e [] 0
+         simp at this
+         rw [← this]
+       have hbody : ∀ (e : List Nat) (k : Nat) (x : Int) (s : List (Option (List Int)) × Int),
+           (e.map Int.ofNat)[k]? = some x → s.1.length = e.length →
+           Go.idx (e.map Int.ofNat) k = .ok x ∧ k < s.1.length := by
+         intro e k x s hk hs
+         have hlt : k < e.length := by
+           have := (List.getElem?_eq_some_iff.mp hk).1; simpa using this
+         exact ⟨idx_of_getElem? hk, by omega⟩
+       rcases s with ⟨rs, _ | c⟩
+       · gem_run
+         rw [hloop]
+         all_goals first
+           | (intro k x s hk hs
+              obtain ⟨h1, h2⟩ := hbody _ k x s hk hs
+              gem_run [h1, h2, spanStep, osliceSet, Go.sliceSet])
+           | simp [prep_mk]
+       · have hc := hv c rfl
+         cases hg : h.get c with
+         | none =>
+           gem_run [hg, get_set_self _ _ _ hc]
+           rw [hloop]
+           all_goals first
+             | (intro k x s hk hs
+                obtain ⟨h1, h2⟩ := hbody _ k x s hk hs
+                gem_run [h1, h2, spanStep, osliceSet, Go.sliceSet])
+             | simp [prep_mk]
+         | some e =>
+           gem_run [hg]
+           rw [hloop]
+           all_goals first
+             | (intro k x s hk hs
+                obtain ⟨h1, h2⟩ := hbody _ k x s hk hs
+                gem_run [h1, h2, spanStep, osliceSet, Go.sliceSet])
+             | simp [prep_mk])
+
 end RosedVerif.GenCodeEq
